@@ -35,6 +35,9 @@ pub fn gen_len(sim: &Sim, cfg: SizeCfg) -> usize {
         sim.pick(&LARGE_SIZES)
     } else if c < 55 {
         sim.pick(&SMALL_SIZES)
+    } else if c < 58 {
+        // medium sizes: every frame count up to 100 (batch sizes, per-poll budgets, ...)
+        71 + sim.draw(630) as usize
     } else {
         sim.draw(71) as usize
     }
